@@ -803,48 +803,106 @@ theorem expired_latest_accepts_nothing (env : Env) (c : Client) (hd : Header) (n
     unfold expired; simp; omega
   simp [this]
 
-/-- **proof_gate.** A membership proof is honoured only at a height not above the latest height, at which a consensus
-    state and a processed time are stored, only after the delay since processing (`processedTime + delay` in
-    unbounded arithmetic, compared with the block time as `uint64`), and only if the membership proof verifies against
-    the root stored at that height. -/
-theorem proof_gate (env : Env) (c : Client) (h : Height) (proof : Option Bytes) (path value : Bytes) (now : Int)
-    (hv : verifyMembership env c h proof path value now = .ok ()) :
-    h ≤ c.cs.latest ∧
-    ∃ k pt pf, lookup h c.st.cons = some k ∧ lookup h c.st.ptime = some pt ∧ proof = some pf ∧
-      pt + c.cs.timeDelay ≤ toU64 now ∧
-      env.proofDecodes pf = true ∧ env.membership k.root pf path value = true := by
-  unfold verifyMembership at hv
-  simp only [bind_ok, require_ok, Bool.not_eq_true', decide_eq_false_iff_not] at hv
-  obtain ⟨_, hlat, hv⟩ := hv
+/-- What the guards shared by every `Verify*` entry point establish: the proof height is not above the latest height, a
+    consensus state and a processed time are stored at it, the proof is present and decodes, and the configured delay
+    has elapsed since that height was processed (`processedTime + TimeDelay` in unbounded arithmetic against the
+    block time as `uint64`). -/
+structure Gate (env : Env) (c : Client) (h : Height) (proof : Option Bytes) (now : Int) (pf : Bytes) (k : ConsState) :
+    Prop where
+  le_latest : h ≤ c.cs.latest
+  stored : lookup h c.st.cons = some k
+  present : proof = some pf
+  decodes : env.proofDecodes pf = true
+  delay : ∃ pt, lookup h c.st.ptime = some pt ∧ pt + c.cs.timeDelay ≤ toU64 now
+
+theorem verifyArgs_ok (env : Env) (c : Client) (h : Height) (proof : Option Bytes) (now : Int) (pf : Bytes)
+    (k : ConsState) (hv : verifyArgs env c h proof now = .ok (pf, k)) : Gate env c h proof now pf k := by
+  unfold verifyArgs at hv
+  simp only [bind_ok, pure_ok] at hv
+  obtain ⟨r, hp, _, hd, hr⟩ := hv
+  subst hr
+  unfold produceVerificationArgs at hp
+  simp only [bind_ok, require_ok, Bool.not_eq_true', decide_eq_false_iff_not] at hp
+  obtain ⟨_, hlat, hp⟩ := hp
   have hle : h ≤ c.cs.latest := by
     rw [Height.le_iff]; rw [Height.lt_iff] at hlat; omega
-  refine ⟨hle, ?_⟩
-  split at hv
-  · simp at hv
-  · rename_i pf
-    simp only [bind_ok, require_ok] at hv
-    obtain ⟨_, hdec, hv⟩ := hv
-    split at hv
-    · simp at hv
-    · rename_i k hk
-      split at hv
-      · simp at hv
+  split at hp
+  · simp at hp
+  · rename_i pf'
+    simp only [bind_ok, require_ok] at hp
+    obtain ⟨_, hdec, hp⟩ := hp
+    split at hp
+    · simp at hp
+    · rename_i k' hk
+      simp only [pure_ok, Prod.mk.injEq] at hp
+      obtain ⟨h1, h2⟩ := hp
+      subst h1 h2
+      unfold verifyDelayPeriodPassed at hd
+      split at hd
+      · simp at hd
       · rename_i pt hpt
-        simp only [bind_ok, require_ok, Bool.not_eq_true', decide_eq_false_iff_not, decide_eq_true_eq] at hv
-        obtain ⟨_, _, _, hdelay, hm⟩ := hv
-        exact ⟨k, pt, pf, hk, hpt, rfl, by omega, hdec, hm⟩
+        simp only [bind_ok, require_ok, Bool.not_eq_true', decide_eq_false_iff_not, decide_eq_true_eq] at hd
+        obtain ⟨_, _, hdelay⟩ := hd
+        exact ⟨hle, hk, rfl, hdec, pt, hpt, by omega⟩
 
-/-- `proof_gate` with the block time as a number: for a non-negative `int64` block time the proof is honoured only if
-    `processedTime + delay ≤ now`. -/
-theorem proof_gate_delay (env : Env) (c : Client) (h : Height) (proof : Option Bytes) (path value : Bytes) (now : Int)
-    (hv : verifyMembership env c h proof path value now = .ok ())
-    (hnow : 0 ≤ now ∧ now < two63) :
+/-- **proof_gate (commitment path).** `VerifyPacketCommitment` honours a proof only at a height not above the latest
+    height, at which a consensus state and a processed time are stored, only after the delay since processing, and only
+    if the membership proof of the commitment path verifies against the root stored at that height. -/
+theorem proof_gate (env : Env) (c : Client) (h : Height) (proof : Option Bytes) (id value : Bytes) (now : Int)
+    (hv : verifyPacketCommitment env c h proof id value now = .ok ()) :
+    ∃ pf k, Gate env c h proof now pf k ∧ env.membership k.root pf (commitmentPath id) value = true := by
+  unfold verifyPacketCommitment at hv
+  simp only [bind_ok, require_ok, Prod.exists] at hv
+  obtain ⟨pf, k, ha, hm⟩ := hv
+  exact ⟨pf, k, verifyArgs_ok _ _ _ _ _ _ _ ha, hm⟩
+
+/-- **proof_gate_ack (acknowledgement path).** The same gate for `VerifyPacketAcknowledgement`, stated separately: the
+    acknowledgement path has its own call of the delay check in the code. -/
+theorem proof_gate_ack (env : Env) (c : Client) (h : Height) (proof : Option Bytes) (id value : Bytes) (now : Int)
+    (hv : verifyPacketAcknowledgement env c h proof id value now = .ok ()) :
+    ∃ pf k, Gate env c h proof now pf k ∧ env.membership k.root pf (acknowledgementPath id) value = true := by
+  unfold verifyPacketAcknowledgement at hv
+  simp only [bind_ok, require_ok, Prod.exists] at hv
+  obtain ⟨pf, k, ha, hm⟩ := hv
+  exact ⟨pf, k, verifyArgs_ok _ _ _ _ _ _ _ ha, hm⟩
+
+/-- the delay conjunct with the block time as a number (non-negative `int64`): `processedTime + delay ≤ now` -/
+theorem gate_delay (env : Env) (c : Client) (h : Height) (proof : Option Bytes) (now : Int) (pf : Bytes) (k : ConsState)
+    (g : Gate env c h proof now pf k) (hnow : 0 ≤ now ∧ now < two63) :
     ∃ pt, lookup h c.st.ptime = some pt ∧ ((pt + c.cs.timeDelay : Nat) : Int) ≤ now := by
-  obtain ⟨_, k, pt, pf, _, hpt, _, hd, _, _⟩ := proof_gate env c h proof path value now hv
+  obtain ⟨pt, hpt, hd⟩ := g.delay
   refine ⟨pt, hpt, ?_⟩
   unfold toU64 two64 at hd
   unfold two63 at hnow
   omega
+
+theorem proof_gate_delay (env : Env) (c : Client) (h : Height) (proof : Option Bytes) (id value : Bytes) (now : Int)
+    (hv : verifyPacketCommitment env c h proof id value now = .ok ())
+    (hnow : 0 ≤ now ∧ now < two63) :
+    ∃ pt, lookup h c.st.ptime = some pt ∧ ((pt + c.cs.timeDelay : Nat) : Int) ≤ now := by
+  obtain ⟨pf, k, g, _⟩ := proof_gate env c h proof id value now hv
+  exact gate_delay env c h proof now pf k g hnow
+
+theorem proof_gate_ack_delay (env : Env) (c : Client) (h : Height) (proof : Option Bytes) (id value : Bytes) (now : Int)
+    (hv : verifyPacketAcknowledgement env c h proof id value now = .ok ())
+    (hnow : 0 ≤ now ∧ now < two63) :
+    ∃ pt, lookup h c.st.ptime = some pt ∧ ((pt + c.cs.timeDelay : Nat) : Int) ≤ now := by
+  obtain ⟨pf, k, g, _⟩ := proof_gate_ack env c h proof id value now hv
+  exact gate_delay env c h proof now pf k g hnow
+
+/-- a consensus state that is still stored above the latest height (after an upgrade installed a lower latest height)
+    is never used: both paths reject a proof height above the latest height -/
+theorem above_latest_rejected (env : Env) (c : Client) (h : Height) (proof : Option Bytes) (id value : Bytes) (now : Int)
+    (hab : c.cs.latest < h) :
+    verifyPacketCommitment env c h proof id value now ≠ .ok () ∧
+    verifyPacketAcknowledgement env c h proof id value now ≠ .ok () := by
+  constructor
+  · intro hv
+    obtain ⟨pf, k, g, _⟩ := proof_gate env c h proof id value now hv
+    exact Height.not_lt_of_le g.le_latest hab
+  · intro hv
+    obtain ⟨pf, k, g, _⟩ := proof_gate_ack env c h proof id value now hv
+    exact Height.not_lt_of_le g.le_latest hab
 
 /-- a configuration that passes `ClientState.Validate` has a trust level in `[1/3, 1]` that fits `int64`, which is the
     side condition of the "trust level" conjunct of `Valid` -/
@@ -999,11 +1057,25 @@ example : validTrustLevel exClient.cs.tlNum exClient.cs.tlDen = true ∧
     NoValsHashCollision exEnv (exHeader 6 150 5 []).vals.vals (exHeader 6 150 5 []).trustedVals.vals :=
   ⟨by decide, by unfold TrustLevelInt64; decide, by decide, fun _ => rfl⟩
 /-- a proof at the stored height is honoured after the delay, not before, and never above the latest height -/
-example : (verifyMembership exEnv (runUpdates exEnv exClient [(exHeader 6 150 5 [.commit, .commit, .commit], 200)])
+example : (verifyPacketCommitment exEnv (runUpdates exEnv exClient [(exHeader 6 150 5 [.commit, .commit, .commit], 200)])
     ⟨0, 6⟩ (some []) [] [] 220).isOk = true := by decide
-example : (verifyMembership exEnv (runUpdates exEnv exClient [(exHeader 6 150 5 [.commit, .commit, .commit], 200)])
+example : (verifyPacketCommitment exEnv (runUpdates exEnv exClient [(exHeader 6 150 5 [.commit, .commit, .commit], 200)])
     ⟨0, 6⟩ (some []) [] [] 219).isOk = false := by decide
-example : (verifyMembership exEnv exClient ⟨0, 6⟩ (some []) [] [] 1000).isOk = false := by decide
+example : (verifyPacketCommitment exEnv exClient ⟨0, 6⟩ (some []) [] [] 1000).isOk = false := by decide
+/-- the acknowledgement path: honoured from `processed + delay` on, not one nanosecond earlier -/
+example : (verifyPacketAcknowledgement exEnv (runUpdates exEnv exClient [(exHeader 6 150 5 [.commit, .commit, .commit], 200)])
+    ⟨0, 6⟩ (some []) [] [] 220).isOk = true := by decide
+example : (verifyPacketAcknowledgement exEnv (runUpdates exEnv exClient [(exHeader 6 150 5 [.commit, .commit, .commit], 200)])
+    ⟨0, 6⟩ (some []) [] [] 219).isOk = false := by decide
+/-- updated to 0-6, then an upgrade installs latest height 0-4: the consensus state at 0-6 is still stored, and proofs
+    at 0-6 are rejected on both paths -/
+example :
+    let c := upgradeClient (runUpdates exEnv exClient [(exHeader 6 150 5 [.commit, .commit, .commit], 200)])
+      { exClient.cs with latest := ⟨0, 4⟩ } ⟨90, [9], [1, 2, 3]⟩ 210
+    (lookup ⟨0, 6⟩ c.st.cons).isSome = true ∧
+    (verifyPacketCommitment exEnv c ⟨0, 6⟩ (some []) [] [] 1000).isOk = false ∧
+    (verifyPacketAcknowledgement exEnv c ⟨0, 6⟩ (some []) [] [] 1000).isOk = false ∧
+    (verifyPacketAcknowledgement exEnv c ⟨0, 4⟩ (some []) [] [] 1000).isOk = true := by decide
 
 /-! multi-revision: created at 1-100 (chain "a-1"), upgraded to 2-5 (chain "a-2"), then the old revision is
     back-filled with 1-101 trusting 1-100: accepted, stored, and the latest height stays 2-5 although 101 > 5 -/
